@@ -193,7 +193,7 @@ def _euler2d(cfg, B):
     bc, side = cfg['bc'], cfg['side']
     g = B.const(cfg['gamma'])
     model = fd.euler.euler2d(gamma=g)
-    mesh = fd.mesh2d.mesh2d(2, 2, B.pos('lx'), B.pos('ly'))
+    mesh = cm.mesh2d(B, fd, 2, 2, B.pos('lx'), B.pos('ly'))
     dirn = mesh.normal_of_bc(side)
     nf = dirn.shape[1]
     rho, V, p, c = cm.euler_prim(B, 'w', g, nf, twod=True)
